@@ -25,7 +25,8 @@ RULE = (
     "untied ballots with repeated candidates and blank (None) cells as the loaders produce them, "
     "with ranking-less ballots mixed in, run through remove_noncands, deduplicate_profiles, "
     "remove_empty_ballots, clean_profile (truncate / drop-a-name), merge_ballots.  Thorough "
-    "enumerates all tied shapes over <= 4 candidates for expand_tied_ballot/remove_cand.  "
+    "enumerates all tied shapes over <= 4 candidates for expand_tied_ballot/remove_cand.  After "
+    "every utility call the arguments are compared with a snapshot taken before it.  "
     "Non-trivial = the removal exhausts some ballots but not all and makes two different input "
     "rankings coincide.  Distinct = SHA-1 of canonical case JSON."
 )
